@@ -1214,3 +1214,7 @@ fn process_err(err: &mut Error, pc: u32, state: &State) {
         }
     }
 }
+
+#[cfg(kani)]
+#[path = "/verif/kani/vm_mod.rs"]
+mod verif_kani;
